@@ -95,6 +95,21 @@ func vfGenES(rng *verifrt.Rand) (nActors, nTypes int, groups [][]vfESOp) {
 	for i := range alive {
 		alive[i] = true
 	}
+	if rng.Intn(100) < 20 && nActors >= 3 {
+		// stray unsubscribes: k actors subscribe to T0, then actors that are NOT subscribed to T0 unsubscribe from it, one
+		// at a time, with a publication after each: a no-op Unsubscribe must not change who receives what, however many
+		// of them there are
+		k := 1 + rng.Intn(minInt(3, nActors-1))
+		for i := 0; i < k; i++ {
+			groups = append(groups, []vfESOp{{Kind: "sub", Actor: i, Typ: 0}})
+		}
+		for j := 0; j < k+5; j++ {
+			stray := k + rng.Intn(nActors-k)
+			groups = append(groups, []vfESOp{{Kind: "unsub", Actor: stray, Typ: 0}})
+			ev++
+			groups = append(groups, []vfESOp{{Kind: "pub", Typ: 0, EvID: ev, Pub: rng.Intn(nPubs)}})
+		}
+	}
 	for n := 0; n < total; {
 		gsz := 1 + rng.Intn(4)
 		var g []vfESOp
@@ -165,6 +180,10 @@ func vfRunES(nActors, nTypes int, groups [][]vfESOp, res *vfCellResult) {
 	// one more subscriber, outside the recorded history: it becomes a zombie at the end (failure, Restart decision, failing
 	// Restarted hook) and is then killed - a termination path of its own, after which the stream must hold no entry for it
 	sup.Children = append(sup.Children, &vfSpec{Name: "z", Subs: []int{0, 1}, HookFail: map[string]int{"restarted": 1}})
+	// ... and another one that is killed and re-created under the same name by the supervisor in one handler at the end:
+	// the successor subscribes at launch while the predecessor is still cleaning up; its subscription must stand
+	ySpec := &vfSpec{Name: "y", Subs: []int{0}}
+	sup.Children = append(sup.Children, ySpec)
 	if _, err := w.spawnTop(sup); err != nil {
 		add("harness-error", "spawn", "%v", err)
 		return
@@ -244,7 +263,7 @@ func vfRunES(nActors, nTypes int, groups [][]vfESOp, res *vfCellResult) {
 		switch {
 		case e.Kind == "recv" && e.Msg == "SE":
 			a := idx(e.Path)
-			if a < 0 && e.Path == "/sup/z" {
+			if a < 0 && (e.Path == "/sup/z" || e.Path == "/sup/y") {
 				continue // the extra subscriber of the final phase: subscribed at launch, outside the recorded history
 			}
 			if a < 0 {
@@ -340,6 +359,31 @@ func vfRunES(nActors, nTypes int, groups [][]vfESOp, res *vfCellResult) {
 		}
 		est0.mu.RUnlock()
 		res.zombieReleased = true
+	}
+	// the re-created subscriber. In the plain unit one maximal delay is injected at a statement of the predecessor's
+	// clean-up (killed_handler.go is instrumented by vinstr; "everything else runs to quiescence first"), so that the
+	// successor is launched and subscribed while the predecessor sits at that statement
+	for round := 0; round < 3; round++ {
+		if len(vfESInjectSites) > 0 {
+			verifrt.BeginInject(map[string]int64{vfESInjectSites[(round*7+len(log))%len(vfESInjectSites)]: 1}, 0)
+		}
+		w.tellName("sup", &vfCmd{ID: w.newID(), Op: "respawn", Arg: ySpec})
+		w.settle(10 * time.Millisecond)
+		if len(vfESInjectSites) > 0 {
+			verifrt.End()
+		}
+		if w.ctxOf("/sup/y") == nil {
+			break
+		}
+		estY := es.(*eventStream)
+		estY.mu.RLock()
+		_, inSubs := estY.subscribers[reflect.TypeOf(vfStreamEvOf(0))]["/sup/y"]
+		_, inIdx := estY.subscriberTypes["/sup/y"]
+		estY.mu.RUnlock()
+		if !inSubs || !inIdx {
+			add("c19-subscription-lost", "re-created subscriber", "/sup/y was killed and re-created under the same name (round %d); the new actor subscribed to T0 at launch and is alive, but the stream holds no entry for it (subscribers: %v, reverse index: %v): the predecessor's clean-up removed the successor's subscription", round, inSubs, inIdx)
+			break
+		}
 	}
 	// table invariants at quiescence
 	est := es.(*eventStream)
@@ -441,12 +485,33 @@ func vfRunESCases(t *testing.T, R *verifrt.Report, check string, n int) {
 
 const vfESRule = "PRNG histories: 2-12 subscriber actors under a restarting supervisor, 1-6 sequential publishers, 1-5 event types, 8-60 ops in groups of 1-4 issued from separate goroutines at one virtual instant (Subscribe / Unsubscribe / UnsubscribeAll / Publish / kill a subscriber / restart a subscriber), quiescence between groups; recipients(e) = actors that processed or dead-lettered e; porcupine per event type against the sequential model 'set of subscribers' (termination = UnsubscribeAll over [kill call, ActorKilledEvent]), duplicate-delivery and per-publisher order ledger, consistency of the two subscriber tables and absence of dead actors in them at quiescence; finally one more subscriber is turned into a zombie (failing Restarted hook) and killed: no entry of it may remain. non-trivial+distinct = distinct histories with >= 1 delivery"
 
+// vfESInjectSites: yield points inside the termination clean-up (collected by a warm-up run in count mode); set by the
+// plain unit only - the race unit runs the same histories free, with its own fuzz controller
+var vfESInjectSites []string
+
 func TestVerif_eventstream(t *testing.T) {
 	R := verifrt.NewReport("eventstream", vfESRule)
 	defer R.Flush()
 	n := verifrt.EnvInt("VERIF_N", 3000)
 	if verifrt.Thorough() {
 		n = 100000
+	}
+	// warm-up: which clean-up statements does a termination execute?
+	{
+		rng := verifrt.NewRand(verifrt.CaseSeed("eventstream-warm", 0))
+		na, nt, groups := vfGenES(rng)
+		res := &vfCellResult{}
+		c := verifrt.Begin(verifrt.ModeCount, 1, 0)
+		vfBubble(t, 60*time.Second, func() { vfRunES(na, nt, groups, res) })
+		verifrt.End()
+		set := map[string]bool{}
+		for st := range c.Sites() {
+			if strings.Contains(st, "cleanupIfNotRestarting") {
+				set[st] = true
+			}
+		}
+		vfESInjectSites = verifrt.SortedKeys(set)
+		R.ObsMax("max:cleanup_yield_points", int64(len(vfESInjectSites)))
 	}
 	vfRunESCases(t, R, "eventstream", n)
 }
